@@ -30,6 +30,7 @@ def run(tier):
         rep.add_mc(vlib.must_pass(vlib.tlc("Replication", cfg, wd, workers=8, timeout=1200), cfg), cfg)
     for cfg, inv in (("MCReplAsBuiltNx", "ServedIsState"), ("MCReplAsBuiltDelHash", "ServedIsState"),
                      ("MCReplAsBuiltErr", "ServedIsState"), ("MCReplAsBuiltRemoteHash", "ServedIsState"),
+                     ("MCReplAsBuiltRmwTtl", "ServedIsState"),
                      ("MCReplAsBuiltExpiry", "Converged"), ("MCReplMixed", "Converged")):
         r = vlib.must_violate(vlib.tlc("Replication", cfg, wd, workers=4, timeout=600), inv, cfg)
         rep.add_mc(r, f"{cfg} (expected violation: {inv})")
@@ -90,6 +91,6 @@ def run(tier):
     rep.cov["exhaustive"] = True
     rep.cov["explanation"] = "exhaustive over the configurations of the exported models (2 commands quick, 3 thorough); random runs are samples"
     rep.assumptions += ["full replication: every node is responsible for the key",
-                        "TTL answers are not compared (the replicated shard actor never advances its executor clock); expiry is compared in the replication state",
+                        "the clocks of the nodes stand still in the step-by-step families: the TTL a node reports (PTTL) is the TTL the key was given, and it is compared with the expiry in the replication state; real time passes only in the timed half of the cluster family, which compares the final reads",
                         "INCR/APPEND outcomes are taken from the log (command semantics is C01's subject)"]
     return rep.finish()
